@@ -591,7 +591,14 @@ class World(object):
         for cb in self.after_step:
             cb(self, actor)
 
-    def run(self, max_steps=4000):
+    def run(self, max_steps=None):
+        if max_steps is None:
+            # every actor needs about one step per op it performs / record
+            # it reads; the cap only bounds runaway schedules
+            nops = sum(len(a.spec.get('ops') or ())
+                       for a in self.actors.values())
+            max_steps = max(4000, 6 * nops + 200)
+
         sched = self.scn.get('schedule') or ()
 
         for aid in sched:
